@@ -275,6 +275,11 @@ def _implies(a, b):
     return (not a) or b
 
 
+_SPEC_GLOBALS = {"len", "sum", "all", "any", "range", "abs", "min", "max", "isinstance", "implies", "enumerate", "zip", "sorted", "list", "set", "frozenset", "tuple", "float", "int", "bool", "np", "math",
+                 "True", "False", "None", "round", "TimedCompartment", "TimedLink", "SourceCompartment", "SinkCompartment", "JunctionCompartment", "ResidualJunctionCompartment", "Compartment", "Link", "Parameter",
+                 "Characteristic", "Population"}
+
+
 def eval_spec(expr, env, old_env, strict=False):
     tree = ast.parse("(" + expr + ")", mode="eval")
 
@@ -287,6 +292,9 @@ def eval_spec(expr, env, old_env, strict=False):
                     def visit_Name(self, n):
                         if n.id in old_env:
                             return ast.copy_location(ast.Subscript(value=ast.Name(id="__old__", ctx=ast.Load()), slice=ast.Constant(n.id), ctx=ast.Load()), n)
+                        if isinstance(n.ctx, ast.Load) and n.id not in _SPEC_GLOBALS:
+                            # a variable bound by an enclosing quantifier: the pre-state twin of the object it denotes
+                            return ast.copy_location(ast.Call(func=ast.Name(id="__oldof__", ctx=ast.Load()), args=[n], keywords=[]), n)
                         return n
 
                 return Ren().visit(inner)
@@ -306,7 +314,9 @@ def eval_spec(expr, env, old_env, strict=False):
     if not strict:
         tree = _Tolerant().visit(tree)
     ast.fix_missing_locations(tree)
-    g = {"_eq": _eq, "_ne": _ne, "_le": _le, "_ge": _ge, "_lt": _lt, "_gt": _gt, "implies": _implies, "__old__": old_env, "np": np, "math": math}
+    memo = old_env.get("__memo__", {}) if isinstance(old_env, dict) else {}
+    g = {"_eq": _eq, "_ne": _ne, "_le": _le, "_ge": _ge, "_lt": _lt, "_gt": _gt, "implies": _implies, "__old__": old_env, "np": np, "math": math,
+         "__oldof__": (lambda x: memo.get(id(x), x))}
     modname = env.get("__module__")
     if modname:
         m = importlib.import_module("atomica." + modname)
@@ -421,6 +431,7 @@ def run_replay(desc, contract, clause_name=None):
         return dict(out, verdict="requires-fail", detail="requires raised %s: %s" % (type(e).__name__, e))
     memo = {}
     old_env = {k: snapshot(v, memo) for k, v in env.items() if k != "__module__"}
+    old_env["__memo__"] = memo  # live object id -> its pre-state twin (for old() of a quantified variable)
     # call the real function (or, for a contract on a loop body, execute the real statements of that body)
     frag = contract.get("fragment")
     if frag is not None:
